@@ -351,6 +351,25 @@ def standard_check(cfg, tier, seed, replay=None):
         R.coverage.update(evaluations=0, distinct_nontrivial=0, rule="no correspondence run: driver unavailable", samples=[])
         return R.finish()
     lines, diffs = run_correspondence(cfg, tier, seed, replay_ops)
+    # optional translator-validation drivers: the REGENERATED definitions executed on the same ops
+    for xd in cfg.get("gen_drivers", []):
+        with Lock():
+            xok, xout = lake_build([xd])
+        if not xok:
+            proof_problems.append("translator-validation driver %s does not build against the regenerated model: %s"
+                                  % (xd, " | ".join(l for l in xout.splitlines() if "error" in l)[:400]))
+            continue
+        data = "".join("%s\t%s\n" % (o, i) for o, i in lines)
+        px = subprocess.run([os.path.join(LEAN, ".lake/build/bin", xd)], input=data, text=True,
+                            stdout=subprocess.PIPE, stderr=subprocess.PIPE, timeout=cfg.get("driver_timeout", 3000))
+        xouts = px.stdout.splitlines()
+        bad = [(lines[i][0], lines[i][1], xouts[i]) for i in range(min(len(xouts), len(lines))) if xouts[i] != "="]
+        R.coverage["translator_validation_" + xd] = {"ops": len(lines), "disagreements": len(bad)}
+        if px.returncode != 0 or len(xouts) != len(lines):
+            proof_problems.append("translator-validation driver %s failed (rc=%d)" % (xd, px.returncode))
+        elif bad:
+            proof_problems.append("the regenerated definitions disagree with the real code on %d ops (translation not faithful), e.g. %s"
+                                  % (len(bad), bad[0]))
     known = load_known(prop)
     dist = distribution(lines, cfg.get("dist_key"))
     R.coverage["evaluations"] = len(lines)
